@@ -583,7 +583,14 @@ func init() {
 			ncaps = 8
 		}
 		for caps := 0; caps < ncaps; caps++ {
-			js = append(js, mk(sprintf("c16.seq.caps%d", caps), queuePkg, "ZZ_C16_Seq", map[string]int{"caps": caps, "steps": steps, "canary": 0},
+			st := steps
+			if caps == 3 || caps >= 6 {
+				st = 6 // capacities 16 and 32: the fill-to-refusal tail dominates
+			}
+			if caps == 7 {
+				st = 4
+			}
+			js = append(js, mk(sprintf("c16.seq.caps%d", caps), queuePkg, "ZZ_C16_Seq", map[string]int{"caps": caps, "steps": st, "canary": 0},
 				func(b *Bounds) { b.Unwind = 40; b.MaxPaths = 1000000; b.MaxWallS = 1500 }))
 		}
 		c := mk("c16.seq.canary", queuePkg, "ZZ_C16_Seq", map[string]int{"caps": 0, "steps": 2, "canary": 1}, func(b *Bounds) { b.Unwind = 40 })
